@@ -194,6 +194,21 @@ func ecdsaRecoverPkgs(srcRoot string) []string {
 	return out
 }
 
+// ecdsaPlainPkgs: the ECDSA packages whose Sign is self-contained (no public-key recovery variant).
+func ecdsaPlainPkgs(srcRoot string) []string {
+	rec := map[string]bool{}
+	for _, p := range ecdsaRecoverPkgs(srcRoot) {
+		rec[p] = true
+	}
+	var out []string
+	for _, p := range globPkgs(srcRoot, "ecc/*/ecdsa") {
+		if !rec[p] {
+			out = append(out, p)
+		}
+	}
+	return out
+}
+
 // ---------------- EdDSA ----------------
 
 func eddsaPkgs(srcRoot string) []string {
@@ -385,6 +400,12 @@ func writeFFT(repoRoot, srcRoot, verifRoot string, check bool) int {
 	for _, c := range fftCfgs(srcRoot) {
 		s := strings.ReplaceAll(string(b), "fr.Element", c.Elem+".Element")
 		stale += installText(filepath.Join(repoRoot, strings.TrimPrefix(c.Pkg, "./"), "zz_verif_contracts_kernels.go"), s, check)
+	}
+	if d, err := os.ReadFile(filepath.Join(verifRoot, "contracts", "fft", "domain.go.tmpl")); err == nil {
+		for _, c := range fftCfgs(srcRoot) {
+			s := strings.ReplaceAll(string(d), "fr.Element", c.Elem+".Element")
+			stale += installText(filepath.Join(repoRoot, strings.TrimPrefix(c.Pkg, "./"), "zz_verif_contracts_domain.go"), s, check)
+		}
 	}
 	return stale
 }
